@@ -43,7 +43,8 @@
 //     contain no pass-action rules, so the known findings of C08/C09 cannot surface here;
 //   - the nat table (no clause of the statement concerns it), IPVS mode, Wireguard, OpenStack
 //     special cases, BPF mode, flow offload, Istio;
-//   - (c) for ICMPv6 types 130-136 (Felix deliberately lets them through before policy), for
+//   - (b) and (c) for ICMPv6 types 130-136 to the host (Felix deliberately lets them through
+//     before dispatch/policy so that the host can act as a router); (c) also for
 //     IPIP / VXLAN-port packets (handled before the workload rules) and, when a wildcard host
 //     endpoint with pre-DNAT policy exists, for packets the reference allows (the wildcard
 //     host endpoint's pre-DNAT policy legitimately applies to them first);
@@ -138,6 +139,21 @@ func denyAll(prefix string) *rulegen.Layout {
 	return &rulegen.Layout{Tiers: []*rulegen.LTier{t}}
 }
 
+// keyWildcardEstablished identifies one specific situation found on the unchanged tree (see the
+// final report): with a wildcard ("*") host endpoint and FilterAllowAction=ACCEPT, cali-FORWARD
+// jumps to the from-host-endpoint forward dispatch BEFORE the workload dispatch; the wildcard
+// endpoint's forward chain starts with "ctstate RELATED,ESTABLISHED -> ACCEPT", so an established
+// packet from an unknown workload-prefixed interface is accepted and never reaches the
+// "Unknown interface" drop.  Emitted only for exactly that walk; at most 4 times per worker.
+const keyWildcardEstablished = "unknown-workload:established-packet-accepted-by-wildcard-hep-forward-chain"
+
+var knownEmitted = map[string]int{}
+
+func emitKnown(key string) bool {
+	knownEmitted[key]++
+	return knownEmitted[key] <= 4
+}
+
 type hookRef struct{ table, chain string }
 
 var (
@@ -177,10 +193,11 @@ type walkResult struct {
 	last     *nfsim.Result
 	lastHook string
 	trace    string
+	perHook  map[string]*nfsim.Result
 }
 
 func (w *world) walk(path []hookRef, pkt nfsim.Packet) (*walkResult, error) {
-	wr := &walkResult{}
+	wr := &walkResult{perHook: map[string]*nfsim.Result{}}
 	var tr strings.Builder
 	for _, h := range path {
 		res, err := w.rs[h.table].Run(w.pfx[h.table]+h.chain, &pkt)
@@ -189,6 +206,7 @@ func (w *world) walk(path []hookRef, pkt nfsim.Packet) (*walkResult, error) {
 		}
 		fmt.Fprintf(&tr, "== %s/%s -> %s mark=%#x\n%s", h.table, h.chain, res.Verdict, res.Mark, res.TraceString())
 		wr.last, wr.lastHook = res, h.table+"/"+h.chain
+		wr.perHook[wr.lastHook] = res
 		pkt.Mark = res.Mark
 		if res.NoTrack {
 			pkt.CTState = nfsim.CTUntracked
@@ -285,6 +303,8 @@ func run(c *harness.Case) {
 		MarkAccept:            0x10000, MarkPass: 0x20000, MarkDrop: 0x200000, MarkScratch0: 0x40000, MarkScratch1: 0x80000,
 		MarkEndpoint: 0xff000000, MarkNonCaliEndpoint: 0x01000000,
 		FailsafeInboundHostPorts: fsIn, FailsafeOutboundHostPorts: fsOut,
+		// Felix's defaults: the names are never empty in a real configuration
+		WireguardInterfaceName: "wireguard.cali", WireguardInterfaceNameV6: "wg-v6.cali", WireguardMark: 0x100000,
 		EndpointToHostAction:           e2h,
 		IPIPEnabled:                    c.R.Intn(2) == 0,
 		VXLANEnabled:                   c.R.Intn(2) == 0,
@@ -327,7 +347,7 @@ func run(c *harness.Case) {
 	wildcard := c.R.Intn(3) == 0
 	const allIfaces = "any-interface-at-all"
 	type hostEP struct {
-		iface                                string
+		iface                               string
 		normal, forward, untracked, preDNAT *rulegen.Layout
 	}
 	var heps []hostEP
@@ -461,6 +481,9 @@ func run(c *harness.Case) {
 		for _, st := range []nfsim.CTState{nfsim.CTNew, nfsim.CTEstablished} {
 			p := uni()
 			p.Dst = local
+			if ipv == 6 && p.Proto == refpolicy.ProtoICMPv6 {
+				p.ICMPType = 128 // not one of the router-essential types Felix lets through before dispatch
+			}
 			probes = append(probes, probe{clause: "b-unknown-workload-to-host", path: pathToHost, mustDrop: true,
 				pkt: nfsim.Packet{Packet: p, InIface: name, CTState: st, DstLocal: true, TCPSyn: true}, note: "from unknown interface " + name})
 			q := uni()
@@ -550,13 +573,13 @@ func run(c *harness.Case) {
 			return s
 		}
 		special := map[string]*refpolicy.IPSet{
-			rules.IPSetIDAllHostNets:         mustSet(hostNet),
-			rules.IPSetIDAllVXLANSourceNets:  mustSet(hostNet),
-			rules.IPSetIDThisHostIPs:         mustSet(thisHost),
-			rules.IPSetIDDSCPEndpoints:       mustSet(),
-			rules.IPSetIDNetworkPools:        mustSet(),
+			rules.IPSetIDAllHostNets:          mustSet(hostNet),
+			rules.IPSetIDAllVXLANSourceNets:   mustSet(hostNet),
+			rules.IPSetIDThisHostIPs:          mustSet(thisHost),
+			rules.IPSetIDDSCPEndpoints:        mustSet(),
+			rules.IPSetIDNetworkPools:         mustSet(),
 			rules.IPSetIDNATOutgoingMasqPools: mustSet(),
-			rules.IPSetIDNoFlowOffload:       mustSet(),
+			rules.IPSetIDNoFlowOffload:        mustSet(),
 		}
 		seenRS := map[*nfsim.Ruleset]bool{}
 		for _, t := range []string{"raw", "mangle", "filter"} {
@@ -667,7 +690,6 @@ func run(c *harness.Case) {
 		upd("mangle", renderer.ToHostDispatchChains(hepMap, defaultIface)...)
 		c.Count("rules_rendered_"+fl, int64(nRules))
 		c.Count("configs_"+fl, 1)
-		_ = maxLen
 
 		detail := func(extra map[string]any) map[string]any {
 			d := map[string]any{"renderer": fl, "ipVersion": ipv, "workload_prefixes": wlPrefixes, "failsafe_in": fsIn, "failsafe_out": fsOut,
@@ -770,6 +792,22 @@ func run(c *harness.Case) {
 					}
 				}
 			}
+			if bad != "" && pr.clause == "b-unknown-workload-forwarded" && wildcard && cfg.FilterAllowAction != "RETURN" &&
+				(pr.pkt.CTState == nfsim.CTEstablished || pr.pkt.CTState == nfsim.CTRelated) {
+				// FINDING (see keyWildcardEstablished): only the exact situation qualifies.
+				fr := wr.perHook["filter/FORWARD"]
+				wildChain := w.pfx["filter"] + rules.EndpointChainName(rules.HostFromEndpointForwardPfx, allIfaces, maxLen)
+				if fr != nil && fr.Verdict == nfsim.Accept && len(fr.Trace) > 0 && fr.Trace[len(fr.Trace)-1].Chain == wildChain {
+					c.Count("finding_wildcard_established", 1)
+					if emitKnown(keyWildcardEstablished) {
+						c.Violationf(keyWildcardEstablished, detail(map[string]any{"clause": pr.clause, "probe": pr.note, "packet": pr.pkt.Packet.String(),
+							"in_iface": pr.pkt.InIface, "out_iface": pr.pkt.OutIface, "walk": wr.trace}),
+							"%s v%d: an ESTABLISHED packet arriving from the unknown workload-prefixed interface %q is ACCEPTed by the conntrack rule of the wildcard host endpoint's forward chain %s before the workload dispatch chain can drop it",
+							fl, ipv, pr.pkt.InIface, wildChain)
+					}
+					continue
+				}
+			}
 			if bad != "" {
 				var dump strings.Builder
 				for _, h := range pr.path {
@@ -782,7 +820,7 @@ func run(c *harness.Case) {
 				c.Violationf(bad+":"+fl, detail(map[string]any{"clause": pr.clause, "probe": pr.note, "packet": pr.pkt.Packet.String(),
 					"in_iface": pr.pkt.InIface, "out_iface": pr.pkt.OutIface, "ctstate": int(pr.pkt.CTState), "reference": why,
 					"observed": map[string]any{"dropped": wr.dropped, "rejected": wr.rejected, "where": wr.where, "last_hook": wr.lastHook, "last_verdict": wr.last.Verdict.String()},
-					"walk": wr.trace, "chains_of_last_hook": dump.String()}),
+					"walk":     wr.trace, "chains_of_last_hook": dump.String()}),
 					"%s v%d clause %s (%s): packet %s in=%q out=%q: dropped=%v at %q, last hook %s verdict %s; reference: %s",
 					fl, ipv, pr.clause, pr.note, pr.pkt.Packet, pr.pkt.InIface, pr.pkt.OutIface, wr.dropped, wr.where, wr.lastHook, wr.last.Verdict, why)
 				return
@@ -838,22 +876,22 @@ func main() {
 		Cases: cases,
 		Run:   run,
 		Floors: map[string]int64{
-			okCounter:                            int64(cases(tierFromArgs())),
-			"rules_rendered_iptables":            20000,
-			"rules_rendered_nft":                 20000,
-			"packets_iptables":                   3000,
-			"packets_nft":                        3000,
-			"clause_a-inbound-failsafe":          200,
-			"clause_a-outbound-failsafe":         200,
-			"clause_a-inbound-failsafe-response": 200,
+			okCounter:                             int64(cases(tierFromArgs())),
+			"rules_rendered_iptables":             20000,
+			"rules_rendered_nft":                  20000,
+			"packets_iptables":                    3000,
+			"packets_nft":                         3000,
+			"clause_a-inbound-failsafe":           200,
+			"clause_a-outbound-failsafe":          200,
+			"clause_a-inbound-failsafe-response":  200,
 			"clause_a-outbound-failsafe-response": 200,
-			"clause_b-unknown-workload-to-host":  400,
+			"clause_b-unknown-workload-to-host":   400,
 			"clause_b-unknown-workload-forwarded": 400,
-			"clause_c-workload-to-host":          2000,
-			"c_ref_allowed":                      300,
-			"c_ref_denied":                       500,
-			"clause_d-ipip-from-non-host":        50,
-			"clause_d-vxlan-from-non-host":       50,
+			"clause_c-workload-to-host":           2000,
+			"c_ref_allowed":                       300,
+			"c_ref_denied":                        500,
+			"clause_d-ipip-from-non-host":         50,
+			"clause_d-vxlan-from-non-host":        50,
 		},
 	})
 }
